@@ -194,3 +194,25 @@ Theorem C16_pvc_kept_premises_satisfiable :
   i_pvc (w_infra (run F18.f18_cfg (firstn 80 F18.f18_acts))) = true /\ length (skipn 80 F18.f18_acts) = 671%nat.
 Proof. exact WorldPvc.pvc_premises_hold. Qed.
 Print Assumptions C16_pvc_kept_premises_satisfiable.
+
+(* The cleanup clause of the monitor at rest (resume_final: what the check demands of the IMPLEMENTATION's final state when the
+   experiment is completed and its suggestion not Failed -- Never/FromVolume: suggestion Succeeded, no Deployment, no Service, the
+   volume claim still there if it was ever seen; LongRunning: Deployment and Service present, suggestion not Succeeded) holds on
+   the model's own projections, for every history without teardown that ends quiescent with the environment done. *)
+From KV Require Proofs.WorldRest3.
+Theorem C16_monitor_cleanup_at_rest_sound : forall c acts,
+  valid_cfg c -> no_teardown acts -> quiescent (run c acts) ->
+  WorldMon.env_done (WorldC.project (run c acts)) = true ->
+  forall k, WorldC.k_cfg k = c -> WorldC.k_steps k = MonSound.msteps (init c) acts ->
+  WorldMon.resume_final k (WorldC.project (run c acts)) = true.
+Proof. exact WorldRest3.resume_final_model. Qed.
+Print Assumptions C16_monitor_cleanup_at_rest_sound.
+
+Theorem C16_monitor_cleanup_premises_satisfiable :
+  valid_cfg F18.f18_cfg /\ no_teardown F18.f18_acts /\ quiescent (run F18.f18_cfg F18.f18_acts) /\
+  WorldMon.env_done (WorldC.project (run F18.f18_cfg F18.f18_acts)) = true /\ c_resume F18.f18_cfg = FromVolume /\
+  existsb (fun ap => i_pvc (WorldC.pj_infra (snd ap))) (MonSound.msteps (init F18.f18_cfg) F18.f18_acts) = true /\
+  exists e s, WorldC.pj_exp (WorldC.project (run F18.f18_cfg F18.f18_acts)) = Some e /\ WorldMon.pe_completed e = true /\
+              WorldC.pj_sug (WorldC.project (run F18.f18_cfg F18.f18_acts)) = Some s /\ WorldMon.ps_is s SFailed = false.
+Proof. exact WorldRest3.resume_final_premises_hold. Qed.
+Print Assumptions C16_monitor_cleanup_premises_satisfiable.
